@@ -8,6 +8,10 @@ AllAssignments == [C4 -> Grid]
 FewAssignments == {[c \in C4 |-> g] : g \in Grid} \cup
                   {[c \in C4 |-> IF c = "ARG" THEN <<3, 2>> ELSE <<1, 2>>], [c \in C4 |-> IF c = "USA" THEN <<0, 1>> ELSE <<3, 2>>],
                    [c \in C4 |-> IF c \in {"DJI", "NZL"} THEN <<1, 1>> ELSE <<1, 2>>], [c \in C4 |-> IF c = "DJI" THEN <<3, 2>> ELSE <<0, 1>>]}
+CountryTab == [r \in RunTypes |-> CASE r \in {"r_arg_base", "r_bad", "r_arg_kf", "r_arg_herd"} -> "ARG" [] r = "r_usa_nw" -> "USA"
+                                     [] r = "r_dji_res" -> "DJI" [] r = "r_wor" -> "WOR" [] r = "r_alb_kf" -> "ALB"]
+OptTab == [r \in RunTypes |-> IF r \in {"r_alb_kf", "r_arg_kf"} THEN "known_to_fail_for_ALB" ELSE r]
+PosTab == [c \in {"ALB", "ARG", "DJI", "USA", "WOR"} |-> CASE c = "ALB" -> 1 [] c = "ARG" -> 5 [] c = "DJI" -> 40 [] c = "USA" -> 150 [] c = "WOR" -> 999]
 ASSUME AggregateSane
 ASSUME Emit => \A x \in AggregateCases :
    PrintT(ToJson([k |-> "Aggregate", list |-> x.list, ratio |-> x.ratio, selected |-> Selected(x.list),
